@@ -18,7 +18,11 @@ ToSet(s) == {s[i] : i \in 1 .. Len(s)}
 
 Fails(e) ==
   IF e.outcome # "ok" THEN
-     (IF Check = "C04" THEN "tokenization did not return normally; " ELSE "")   \* C03's business elsewhere
+     \* no stream at all.  C04 judges the option-free run; C15 the run under options when the option-free
+     \* run did return (enabling an option must only drop or rewrite tokens); C12 has nothing to judge.
+     (IF Check = "C04" THEN "tokenization did not return normally; "
+      ELSE IF Check = "C15" /\ e.outcome_base = "ok" THEN "no token stream under the options although the option-free run returns one; "
+      ELSE "")
   ELSE IF Check = "C04" THEN LosslessFails(e.input, e.base)
   ELSE IF Check = "C15" THEN OptionFails(ToSet(e.opts), e.kind, e.input, e.base, e.out)
   ELSE IF Check = "C12" THEN
